@@ -155,6 +155,16 @@ pub fn ask<T: std::ops::Deref<Target = Transaction>>(cache: &mut SighashCache<T>
             if annex.is_none() && leaf.is_some() {
                 let k = cache.taproot_script_spend_signature_hash(i, &prevouts, ScriptPath::with_defaults(&script), schnorr_type(ht), genesis).map_err(|e| format!("{:?}", e))?;
                 if k != d { return Err("script-spend entry point disagrees".to_string()); }
+                // a script path with another leaf version commits to that version's leaf hash (own tagged hash), not to the default one
+                for ver in [0xc0u8, 0xc6] {
+                    let mut m = vec![ver];
+                    m.extend(crate::tok::varint(script.len() as u64, None));
+                    m.extend_from_slice(script.as_bytes());
+                    let lh = TapLeafHash::from_byte_array(crate::sha256c::tagged("TapLeaf/elements", &m));
+                    let via_hash = cache.taproot_sighash(i, &prevouts, None, Some((lh, 0xffff_ffffu32)), schnorr_type(ht), genesis).map_err(|e| format!("{:?}", e))?;
+                    let via_path = cache.taproot_script_spend_signature_hash(i, &prevouts, ScriptPath::new(&script, 0xffff_ffff, LeafVersion::from_u8(ver).map_err(|e| format!("{:?}", e))?), schnorr_type(ht), genesis).map_err(|e| format!("{:?}", e))?;
+                    if via_hash != via_path { return Err(format!("script path with leaf version {:#x} does not commit to that version's leaf hash", ver)); }
+                }
             }
             Ok((msg, d.to_byte_array()))
         }
